@@ -3,6 +3,7 @@ package main
 import (
 	"context"
 	"crypto/x509"
+	"encoding/base64"
 	"encoding/json"
 	"fmt"
 	"sort"
@@ -261,7 +262,7 @@ type world struct {
 // the certificate material of the initial cluster contents (the environment's):
 // generated once, from pool keys that the scenarios themselves never get.
 type initialMaterial struct {
-	ca0, other pair
+	ca0, other, rival pair
 	leaf       map[string]pair
 }
 
@@ -270,7 +271,7 @@ var (
 	mat     initialMaterial
 )
 
-const reservedKeys = 6
+const reservedKeys = 7
 
 func material() *initialMaterial {
 	matOnce.Do(func() {
@@ -282,6 +283,7 @@ func material() *initialMaterial {
 			cliName:              mkLeaf(ks, mat.ca0, cliDNS, x509.ExtKeyUsageClientAuth),
 			essName:              mkLeaf(ks, mat.ca0, essDNS, x509.ExtKeyUsageServerAuth),
 		}
+		mat.rival = mkCA(ks, "Rival") // (the seventh reserved key)
 		if ks.next != reservedKeys {
 			panic("reservedKeys")
 		}
@@ -416,7 +418,11 @@ func (w *world) populate() {
 func (w *world) requests() (p, c, f []string) {
 	imgs := []string{image(w.in.Req.H, "r1", w.in.Req.V)}
 	if w.in.Req2 {
-		imgs = append(imgs, image("h", "r2", "t1"))
+		h2 := "h" // another repository of the registry the installed package came from
+		if w.in.Inst.N != "none" && w.in.Inst.N != "" {
+			h2 = w.in.Inst.H
+		}
+		imgs = append(imgs, image(h2, "r2", "t1"))
 	}
 	switch w.in.Kind {
 	case "conf":
@@ -556,6 +562,22 @@ func (w *world) intercept(c *simapi.Call) simapi.Decision {
 		}
 		w.fired[i] = true
 		w.injAt = lab
+		if f.F == "rivalca" {
+			// another actor completes the CA secret right before this write reaches the API server
+			oth := material().rival
+			data := map[string][]byte{"tls.crt": oth.crt, "tls.key": oth.key}
+			k := simapi.Key{Kind: "Secret", Namespace: ns, Name: caName}
+			if w.s.Peek(k) == nil {
+				w.s.Put(secret(caName, data))
+			} else {
+				w.s.Mutate(k, func(u *unstructured.Unstructured) {
+					_ = unstructured.SetNestedField(u.Object, base64.StdEncoding.EncodeToString(data["tls.crt"]), "data", "tls.crt")
+					_ = unstructured.SetNestedField(u.Object, base64.StdEncoding.EncodeToString(data["tls.key"]), "data", "tls.key")
+				})
+			}
+			w.inj = "fail"
+			return simapi.Proceed
+		}
 		if f.F == "crashAfter" && c.Write {
 			w.inj = "crashAfter"
 			return simapi.CrashAfter
